@@ -1023,6 +1023,8 @@ def oracle(ctx, run, label, props):
     """the property statements evaluated on what the real queue did"""
     h = run.h
     case = dict(schedule=run.choices, cfg=run.cfg, events=h.trace)
+    if 'c12' in props and getattr(h, 'started', False) and h.queue.dead:
+        ctx.fail('c12:scheduler-died', case, 'the queue\'s scheduler greenlet (Queue._run) ended with %r: nothing that becomes due from now on is attempted' % (h.queue.exception,))
     if h.load_errors:
         key = 'c12:stored-message-forgotten' if 'c12' in props else ('c01:stored-message-never-loaded' if 'c01' in props else 'c03:load-raises')
         ctx.fail(key, case, 'storage load() raises on the %s backend: %s (the stored messages can not be listed, a restarted queue would never pick them up)' % (run.cfg.get('backend', 'dict'), h.load_errors[0]))
